@@ -161,7 +161,9 @@ class World:
             # supports of hundreds to thousands of outcomes on 10-12 qubits (compactly described: rebuilt from a seed
             # when the step runs), at a random position of the history
             for _ in range(r.randint(1, 2)):
-                w = {"op": "wide", "args": {"n": r.choice([10, 11, 12]), "ka": r.randint(200, 1800), "kb": r.randint(200, 1800),
+                nw = r.choice([10, 11, 12, 12, 17, 20, 24])
+                hi = 1800 if nw <= 12 else 250   # (beyond 16 qubits outcome codes no longer fit 16/32-bit squares: keep the supports small)
+                w = {"op": "wide", "args": {"n": nw, "ka": r.randint(30 if nw > 12 else 200, hi), "kb": r.randint(30 if nw > 12 else 200, hi),
                                             "heavy": r.randint(0, 6), "seed": r.getrandbits(32), "style": r.choice(["tuple", "bits"]),
                                             "sigma": r.choice([1.0, 0.5, 3.0, 50.0, 1e4, [0.25, 10, 1000], {"np": [0.5, 2.0, 30.0]}]),
                                             "k": r.randint(1, 4)}}
@@ -386,6 +388,9 @@ class World:
         for w, k in ((wa, a["ka"]), (wb, a["kb"])):
             for i in r.sample(range(space), min(k, space)):
                 w.setdefault(i, r.random())
+            if n > 12:   # both ends of the register's code range
+                w.setdefault(0, r.random())
+                w.setdefault(space - 1, r.random())
         objs = []
         for w in (wa, wb):
             tot = sum(w.values())
